@@ -3,7 +3,7 @@
 # of the harness bound to it), runs the quick check of its property there and expects exit 1 with a VIOLATION line. /repo itself is
 # not touched, so this can run while other checks run against /repo. `seedcheck.sh --clean` removes the scratch area.
 cd /verif
-S=/tmp/vseed
+S=${VSEED_DIR:-/tmp/vseed}
 if [ "$1" = "--clean" ]; then git -C /repo worktree remove --force $S/repo 2>/dev/null; rm -rf $S; git -C /repo worktree prune; exit 0; fi
 mkdir -p $S
 if [ ! -d $S/repo ]; then git -C /repo worktree add -q --detach $S/repo HEAD || exit 2; fi
